@@ -80,237 +80,12 @@ use crate::celestia::{
     fetch::RawBlobs,
 };
 
-// ---------------------------------------------------------------------------------------------
-// Protobuf wire tree
-// ---------------------------------------------------------------------------------------------
-
-#[derive(Clone, Debug, PartialEq)]
-enum Val {
-    Varint(u64),
-    Fixed64([u8; 8]),
-    Fixed32([u8; 4]),
-    Bytes(Vec<u8>),
-    Msg(Vec<Field>),
-    /// length-delimited field whose declared length differs from its payload (mutants only)
-    RawLen(u64, Vec<u8>),
-}
-
-#[derive(Clone, Debug, PartialEq)]
-struct Field {
-    num: u32,
-    val: Val,
-}
-
-fn read_varint(b: &[u8], pos: &mut usize) -> Option<u64> {
-    let mut v = 0u64;
-    for i in 0..10 {
-        let byte = *b.get(*pos)?;
-        *pos += 1;
-        v |= u64::from(byte & 0x7f) << (7 * i);
-        if byte & 0x80 == 0 {
-            return Some(v);
-        }
-    }
-    None
-}
-
-fn write_varint(mut v: u64, out: &mut Vec<u8>) {
-    loop {
-        let byte = (v & 0x7f) as u8;
-        v >>= 7;
-        if v == 0 {
-            out.push(byte);
-            return;
-        }
-        out.push(byte | 0x80);
-    }
-}
-
-fn parse(b: &[u8], depth: usize) -> Option<Vec<Field>> {
-    let mut pos = 0;
-    let mut out = Vec::new();
-    while pos < b.len() {
-        let key = read_varint(b, &mut pos)?;
-        let num = u32::try_from(key >> 3).ok()?;
-        if num == 0 || num > 64 {
-            return None;
-        }
-        let val = match key & 7 {
-            0 => Val::Varint(read_varint(b, &mut pos)?),
-            1 => {
-                let s = b.get(pos..pos + 8)?;
-                pos += 8;
-                Val::Fixed64(s.try_into().unwrap())
-            }
-            5 => {
-                let s = b.get(pos..pos + 4)?;
-                pos += 4;
-                Val::Fixed32(s.try_into().unwrap())
-            }
-            2 => {
-                let len = usize::try_from(read_varint(b, &mut pos)?).ok()?;
-                let s = b.get(pos..pos.checked_add(len)?)?;
-                pos += len;
-                // heuristic: a payload that parses completely as fields is treated as a message
-                // (a wrong guess only changes which mutants are generated, never the oracle)
-                match (depth < 8 && !s.is_empty()).then(|| parse(s, depth + 1)).flatten() {
-                    Some(fields) if !fields.is_empty() => Val::Msg(fields),
-                    _ => Val::Bytes(s.to_vec()),
-                }
-            }
-            _ => return None,
-        };
-        out.push(Field {
-            num,
-            val,
-        });
-    }
-    Some(out)
-}
-
-fn encode(fields: &[Field]) -> Vec<u8> {
-    let mut out = Vec::new();
-    for f in fields {
-        let (wt, payload): (u64, Option<Vec<u8>>) = match &f.val {
-            Val::Varint(_) => (0, None),
-            Val::Fixed64(_) => (1, None),
-            Val::Fixed32(_) => (5, None),
-            Val::Bytes(b) => (2, Some(b.clone())),
-            Val::Msg(m) => (2, Some(encode(m))),
-            Val::RawLen(_, p) => (2, Some(p.clone())),
-        };
-        write_varint((u64::from(f.num) << 3) | wt, &mut out);
-        match &f.val {
-            Val::Varint(v) => write_varint(*v, &mut out),
-            Val::Fixed64(x) => out.extend_from_slice(x),
-            Val::Fixed32(x) => out.extend_from_slice(x),
-            Val::RawLen(len, _) => {
-                write_varint(*len, &mut out);
-                out.extend_from_slice(&payload.unwrap());
-            }
-            _ => {
-                let p = payload.unwrap();
-                write_varint(p.len() as u64, &mut out);
-                out.extend_from_slice(&p);
-            }
-        }
-    }
-    out
-}
-
-fn count_nodes(fields: &[Field]) -> usize {
-    fields.iter().map(|f| 1 + if let Val::Msg(m) = &f.val { count_nodes(m) } else { 0 }).sum()
-}
-
-/// Replacement values for one node (not counting structural edits of the sibling list).
-fn value_variants(v: &Val) -> Vec<(String, Val)> {
-    let mut out = Vec::new();
-    match v {
-        Val::Varint(x) => {
-            for (name, n) in [
-                ("0", 0u64),
-                ("1", 1),
-                ("+1", x.wrapping_add(1)),
-                ("-1", x.wrapping_sub(1)),
-                ("i32max", i32::MAX as u64),
-                ("u32max", u64::from(u32::MAX)),
-                ("2^32", 1 << 32),
-                ("2^63", 1 << 63),
-                ("u64max", u64::MAX),
-            ] {
-                if n != *x {
-                    out.push((format!("varint={name}"), Val::Varint(n)));
-                }
-            }
-        }
-        Val::Fixed64(x) => {
-            out.push(("fixed64=0".into(), Val::Fixed64([0; 8])));
-            out.push(("fixed64=ff".into(), Val::Fixed64([0xff; 8])));
-            let mut y = *x;
-            y[0] ^= 1;
-            out.push(("fixed64^1".into(), Val::Fixed64(y)));
-        }
-        Val::Fixed32(x) => {
-            out.push(("fixed32=0".into(), Val::Fixed32([0; 4])));
-            out.push(("fixed32=ff".into(), Val::Fixed32([0xff; 4])));
-            let mut y = *x;
-            y[0] ^= 1;
-            out.push(("fixed32^1".into(), Val::Fixed32(y)));
-        }
-        Val::Bytes(b) => {
-            if !b.is_empty() {
-                out.push(("bytes=empty".into(), Val::Bytes(vec![])));
-                out.push(("bytes-last".into(), Val::Bytes(b[..b.len() - 1].to_vec())));
-                out.push(("bytes-first".into(), Val::Bytes(b[1..].to_vec())));
-                let mut f = b.clone();
-                f[0] ^= 1;
-                out.push(("bytes^first".into(), Val::Bytes(f)));
-                let mut l = b.clone();
-                *l.last_mut().unwrap() ^= 0x80;
-                out.push(("bytes^last".into(), Val::Bytes(l)));
-                out.push(("bytes=zeros".into(), Val::Bytes(vec![0; b.len()])));
-            }
-            let mut e = b.clone();
-            e.push(0);
-            out.push(("bytes+0".into(), Val::Bytes(e)));
-            out.push(("len+1".into(), Val::RawLen(b.len() as u64 + 1, b.clone())));
-            if !b.is_empty() {
-                out.push(("len-1".into(), Val::RawLen(b.len() as u64 - 1, b.clone())));
-            }
-            out.push(("len=2^31".into(), Val::RawLen(1 << 31, b.clone())));
-        }
-        Val::Msg(m) => {
-            let p = encode(m);
-            out.push(("msg=empty".into(), Val::Bytes(vec![])));
-            out.push(("len+1".into(), Val::RawLen(p.len() as u64 + 1, p.clone())));
-            if !p.is_empty() {
-                out.push(("len-1".into(), Val::RawLen(p.len() as u64 - 1, p.clone())));
-                out.push(("msg-last-byte".into(), Val::Bytes(p[..p.len() - 1].to_vec())));
-            }
-        }
-        Val::RawLen(..) => {}
-    }
-    out
-}
-
-/// Every single-node mutant of `fields`, with a description of the edit.
-fn mutants(fields: &[Field], path: &str) -> Vec<(String, Vec<Field>)> {
-    let mut out = Vec::new();
-    for i in 0..fields.len() {
-        let here = format!("{path}/{}#{i}", fields[i].num);
-        // structural edits of the sibling list
-        let mut del = fields.to_vec();
-        del.remove(i);
-        out.push((format!("{here}:delete"), del));
-        let mut dup = fields.to_vec();
-        dup.insert(i, fields[i].clone());
-        out.push((format!("{here}:duplicate"), dup));
-        if i + 1 < fields.len() && fields[i] != fields[i + 1] {
-            let mut sw = fields.to_vec();
-            sw.swap(i, i + 1);
-            out.push((format!("{here}:swap-next"), sw));
-        }
-        // renumber the field (unknown field / another field of the message)
-        for delta in [1u32, 15] {
-            let mut rn = fields.to_vec();
-            rn[i].num = (fields[i].num + delta - 1) % 30 + 1;
-            out.push((format!("{here}:field-number+{delta}"), rn));
-        }
-        for (name, v) in value_variants(&fields[i].val) {
-            let mut m = fields.to_vec();
-            m[i].val = v;
-            out.push((format!("{here}:{name}"), m));
-        }
-        if let Val::Msg(children) = &fields[i].val {
-            for (name, c) in mutants(children, &here) {
-                let mut m = fields.to_vec();
-                m[i].val = Val::Msg(c);
-                out.push((name, m));
-            }
-        }
-    }
-    out
-}
+use super::engine::wire::{
+    count_nodes,
+    encode,
+    mutants,
+    parse,
+};
 
 // ---------------------------------------------------------------------------------------------
 // Seeds
